@@ -16,7 +16,7 @@ func init() { runtime.LockOSThread() }
 
 func main() {
 	if len(os.Args) < 2 {
-		fmt.Fprintln(os.Stderr, "usage: persistdrv run|crash|unsafe|save-child|--machines ...")
+		fmt.Fprintln(os.Stderr, "usage: persistdrv run|crash|unsafe|save-child|load-child|--machines ...")
 		os.Exit(3)
 	}
 	var err error
@@ -31,6 +31,8 @@ func main() {
 		err = persistdrv.UnsafeMain(os.Args[2:])
 	case "save-child":
 		os.Exit(persistdrv.ChildMain(os.Args[2:]))
+	case "load-child":
+		os.Exit(persistdrv.LoadChildMain(os.Args[2:]))
 	default:
 		err = fmt.Errorf("unknown subcommand %q", os.Args[1])
 	}
